@@ -160,7 +160,7 @@ func genCount(r *simcore.RNG, tier string) int {
 
 // output file names a user might choose
 var fileNames = []string{"", "", "", "", "a b c.EXT", "ünï-çødé.EXT", "UPPER.EXT", "noext", "two.dots.v1.2.EXT", "100%d%s%v.EXT", ".hidden.EXT", "-dash.EXT",
-	"long-" + strings.Repeat("x", 180) + ".EXT", "file.EXT.bak", "sub dir name.EXT", "@dotdot/part.EXT", "@dotdot/part.EXT"}
+	"long-" + strings.Repeat("x", 180) + ".EXT", "file.EXT.bak", "sub dir name.EXT", "@dotdot/part.EXT", "@dotdot/part.EXT", "@link/latest.EXT", "@link/latest.EXT"}
 
 // consumer-side hook sites of a sink
 func sinkSites(sink string) []string {
